@@ -1003,11 +1003,11 @@ Example ex_json_reads_back :
     json_read_object page =
     Some [(k_message, [69; 46; 10; 10; 10] ++ [60; 97; 62; 36; 123; 98; 114; 125; 36; 36] ++ [10; 10]);
           (k_code, [52; 48; 52; 32; 78; 70]); (k_title, [78; 70])].
-Proof. eexists. split; vm_compute; reflexivity. Qed.
+Proof. eexists. split; [vm_compute; reflexivity|]. vm_compute. reflexivity. Qed.
 
 Example ex_model_runs :
   exists o, model (ex_input [t_html]) = Some (Ok o) /\ o_ctype o = t_html.
-Proof. eexists. split; vm_compute; reflexivity. Qed.
+Proof. eexists. split; [vm_compute; reflexivity|]. vm_compute. reflexivity. Qed.
 
 Example ex_same_shape_satisfiable :
   same_shape (ex_input [t_html]) (with_detail (ex_input [t_html]) (Some [60; 98; 62]))
@@ -1019,3 +1019,22 @@ Example ex_keyerror :
   substitute [36; 120] [] = KeyErr /\ substitute [36] [] = ValErr /\ substitute [36; 36; 120] [] = Ok [36; 120].
 Proof. repeat split. Qed.
 
+
+(* ------------------------------------------------------------------ markup characters survive UTF-8 encoding unchanged
+   (so the statements about the page text carry over to the body bytes) *)
+Lemma mk_encode1 c : mk (encode1 c) = mk [c].
+Proof.
+  unfold encode1.
+  destruct (c <? 128) eqn:E1; [reflexivity|].
+  assert (Hc : is_markup c = false) by (unfold is_markup; lia).
+  unfold mk. cbn [filter]. rewrite Hc.
+  destruct (c <? 2048) eqn:E2; [|destruct (c <? 65536) eqn:E3]; cbn [filter];
+    repeat match goal with |- context [is_markup ?x] => replace (is_markup x) with false by (unfold is_markup; lia) end;
+    reflexivity.
+Qed.
+
+Lemma mk_encode s : mk (Utf8.encode s) = mk s.
+Proof.
+  induction s as [|c r IH]; [reflexivity|].
+  unfold Utf8.encode in *. cbn [flat_map]. rewrite mk_app, IH, mk_encode1. change (c :: r) with ([c] ++ r). rewrite mk_app. reflexivity.
+Qed.
